@@ -188,7 +188,9 @@ def r17_2(ctx, prog, crate):
                 if last in ("len", "is_empty", "iter", "as_ptr", "deref", "as_slice", "get", "first", "last", "into_iter", "as_deref", "new", "with_capacity"):
                     continue
                 m += 1
-                ctx.check(allowed.get(last) == b.path, "R17.2", ["Leaf.args-mutator", b.path, last],
+                from .common import hosted_in
+                owner = {"retain": "entry::tree::EntryTree::retain", "sort_by": "entry::tree::EntryTree::sort_by_attr"}.get(last)
+                ctx.check(owner is not None and hosted_in(prog, b, owner), "R17.2", ["Leaf.args-mutator", b.path, last],
                           "`%s` is applied to a Vec<&&str> in `%s` (only retain and sort_by may touch Leaf.args)" % (c.callee, b.path), c.line())
     ctx.anchor("R17.2", "mutating calls on Vec<&&str>", m, 2)
     # AnyBenchEntry::arg_names comes from the runner's names
